@@ -38,8 +38,7 @@ pub struct Profile {
     /// names stay unique): whatever keys by name instead of by `Source` identity merges them.
     pub dup_names_pm: u64,
     /// Features as a custom parser / gherkin's typed builders produce them: every position 0:0
-    /// (in the writer worlds, C11 - C14, a scenario may then also hold the same step twice; the
-    /// runner-world reference model attributes outcomes by step text and is not given such plans).
+    /// (a scenario may then also hold the same step twice: `repeat_steps`).
     pub positionless_pm: u64,
     pub repeat_steps: bool,
 }
@@ -66,7 +65,7 @@ impl Profile {
             spicy: false,
             dup_names_pm: 60,
             positionless_pm: 60,
-            repeat_steps: false,
+            repeat_steps: true,
         }
     }
 
